@@ -50,12 +50,17 @@ func c01Apply(v *vShard, m vModel, op string, id int) error {
 	return vApply(v, m, op, id)
 }
 
+var c01DirSeq int
+
 // c01History runs one history under the recorder and recovers every crash image.
 func c01History(rep *kit.Report, scratch string, c c01Case) {
 	cpu.SetCpuNum(c.Partitions, 1)
 	// Recovery must run at the SAME absolute path as the live shard: the index's transaction files
 	// record absolute paths, so an image moved elsewhere is not an image the process could have left.
-	root := vMkdir(scratch, "live") + "/"
+	// a directory of its own per history: process-global caches of the engine are keyed by file path and file names restart at
+	// 00000001 in a new shard (all crash images of ONE history are still recovered at this one path, as they must be)
+	c01DirSeq++
+	root := vMkdir(scratch, fmt.Sprintf("live%d", c01DirSeq)) + "/"
 	imgRoot := vMkdir(scratch, "img")
 	work := strings.TrimSuffix(root, "/")
 	defer func() {
